@@ -47,6 +47,7 @@ def ev_N12():
         T("Q", ["A01"], "Q", ["A01"], [7.5]),
         T("Q", ["A01", "B01"], "P", ["B01", "A03"], [30, 7.5]),
         T("P", ["A01"], "P", ["B01"], [30]),
+        T("P", ["A01", "B01"], "P", ["B01", "A02"], [30, 30]),
         T("Q", ["B01"], "T", ["A02"], [7.5]),
         R("T", 0, "Q", ["A01", "B01", "A02"], 30),
         R("T", 1, "P", ["A01", "B03"], 7.5),
@@ -58,6 +59,10 @@ def ev_N12():
     ]
     full = [
         T("Q", ["A01", "A02"], "Q", ["A02", "B02"], [7.5, 7.5]),  # a well that is destination and source
+        T("Q", ["A01", "B01"], "Q", ["B01", "C01"], [7.5, 7.5]),  # serial dilution down one column, one call
+        T("P", ["A01", "B01"], "P", ["B01", "A01"], [30, 30]),  # swap inside one column group
+        T("P", ["A02", "B02"], "P", ["B02", "A03"], [70, 70], partition_by="source"),  # chain with split volumes
+        T("Q", ["A02", "B02", "C02"], "Q", ["B02", "C02", "A01"], [7.5, 7.5, 7.5], partition_by="destination"),
         T("Q", ["A02", "A01"], "Q", ["A01", "B02"], [7.5, 7.5], partition_by="destination"),
         T("P", ["A01", "B01", "A02", "B02"], "Q", ["A01", "A01", "B01", "B01"], [0, 30, 0, 7.5]),
         T("P", ["A01"], "Q", ["C02"], [0]),
